@@ -87,35 +87,30 @@ Proof. exact second_roundtrip_verbatim. Qed.
 Print Assumptions C14_second_roundtrip_verbatim.
 
 (** * (A) out-of-range attachment / external node numbers
-    Full statement: a document that json_to_hrg accepts contains no node number outside 0..n-1.
-    It is FALSE for the code as it stands (F10): *)
-Theorem C14_out_of_range_rejected_refuted :
-  exists j g, json_to_hrg_model 0 j = Ok g /\ has_oor j = true.
-Proof. exact accepted_has_oor_refuted. Qed.
-Print Assumptions C14_out_of_range_rejected_refuted.
+    (after the repair of F10 in /repo, commit 2f3a5c1: negative numbers no longer wrap around)
+    A document that json_to_hrg accepts contains no attachment or external node number outside
+    0..n-1 (n = number of nodes of that rule), negative numbers included ... *)
+Theorem C14_out_of_range_rejected :
+  forall c j g, json_to_hrg_model c j = Ok g -> has_oor j = false.
+Proof. exact accepted_in_range. Qed.
+Print Assumptions C14_out_of_range_rejected.
 
-(** positive theorem under the guard "outside -n..n-1" (i.e. excluding the numbers that wrap) *)
-Theorem C14_out_of_range_rejected_guarded :
-  forall c j g, json_to_hrg_model c j = Ok g -> has_num oor_py j = false.
-Proof. exact accepted_in_py_range. Qed.
-Print Assumptions C14_out_of_range_rejected_guarded.
+(** ... and the error is ValueError: at the indexing statement, for every number outside 0..n-1 ... *)
+Theorem C14_out_of_range_is_ValueError :
+  forall (l : list node) z, oor (length l) z = true -> att_index l (JInt z) = Err ValueErr.
+Proof. exact (@att_index_oor node). Qed.
+Print Assumptions C14_out_of_range_is_ValueError.
 
-(** and the error is ValueError: a number >= n, or < -n, at the indexing statement ... *)
-Theorem C14_too_big_is_ValueError :
-  forall (l : list node) z, (Z.of_nat (length l) <= z)%Z -> att_index l (JInt z) = Err ValueErr.
-Proof. exact (@att_index_too_big node). Qed.
-Print Assumptions C14_too_big_is_ValueError.
+Theorem C14_negative_is_ValueError :
+  forall (l : list node) z, (z < 0)%Z -> att_index l (JInt z) = Err ValueErr.
+Proof. exact (@att_index_negative node). Qed.
+Print Assumptions C14_negative_is_ValueError.
 
-Theorem C14_too_small_is_ValueError :
-  forall (l : list node) z, (z < - Z.of_nat (length l))%Z -> att_index l (JInt z) = Err ValueErr.
-Proof. exact (@att_index_too_small node). Qed.
-Print Assumptions C14_too_small_is_ValueError.
-
-(** ... and in the edge loop of json_to_hrg *)
+(** ... and in the edge loop of json_to_hrg (the externals loop uses the same [mapM att_index]) *)
 Theorem C14_edge_loop_rejects :
   forall tbl nodes je l c seen d la,
     je = JDict d -> dict_find d k_attachments = Some (JList la) ->
-    Forall is_int la -> Exists (fun j => num_sat oor_py (length nodes) j = true) la ->
+    Forall is_int la -> Exists (fun j => num_sat oor (length nodes) j = true) la ->
     parse_edges tbl nodes (je :: l) c seen = Err ValueErr.
 Proof. exact parse_edges_rejects. Qed.
 Print Assumptions C14_edge_loop_rejects.
@@ -126,8 +121,10 @@ Print Assumptions C14_edge_loop_rejects.
     negative from the end; all occurrences of one axis must agree: a diagonal), a list is a
     mixed-radix number (most significant first), a dict embeds its term after [before] unbacked
     cells -- and return the physical entry ([expand] axes broadcast), or the default where nothing
-    is backed.  The model of json_to_weights followed by the strided to_dense (scatter through
-    [Axis.stride] / [project]) computes exactly that tensor. *)
+    is backed.  A specification without "vaxes" ([ws_vaxes s = None]; accepted since the repair of
+    F19, commit fe13a06) has the physical axes as its virtual axes.  The model of json_to_weights
+    followed by the strided to_dense (scatter through [Axis.stride] / [project]) computes exactly
+    that tensor. *)
 Theorem C14_patterned_weights :
   forall s : wspec, wf_wspec s = true ->
     exists pt t,
@@ -137,22 +134,15 @@ Theorem C14_patterned_weights :
 Proof. exact patterned_weights. Qed.
 Print Assumptions C14_patterned_weights.
 
-(** the format makes "vaxes" optional; without it the code raises AssertionError (F19) *)
-Theorem C14_patterned_weights_without_vaxes_refuted :
-  json_to_weights_model f19_spec = Err AssertErr.
-Proof. exact f19_refuted. Qed.
-Print Assumptions C14_patterned_weights_without_vaxes_refuted.
-
 (** * (A) FGG level: json_to_fgg (fgg_to_json g)
-    the grammar is isomorphic (through [FGG.from_hrg]), the domains are equal and every factor
-    denotes the same dense tensor entry by entry (whatever its sparsity pattern, infinities
-    included) -- under two guards that exclude the defects F20 and F21 below:
-    [labels_used]: every edge label is the start symbol, a left-hand side or used in some rule;
-    [factor_wf]: factors are bound to registered terminals with domains, have the right shape,
-    can be densified, and no dimension is empty. *)
+    the grammar is isomorphic (through [FGG.from_hrg], which keeps the label table since the repair
+    of F20, commit 450bcaa), the domains are equal and every factor denotes the same dense tensor
+    entry by entry (whatever its sparsity pattern, infinities included).
+    Guard [factor_wf]: factors are bound to registered terminals with domains, have the right
+    shape, can be densified, and no dimension is empty (F21, not repaired, below). *)
 Theorem C14_fgg_roundtrip :
   forall (dec : nat -> str) (g : fgg) (c : nat),
-    wf_hrg (f_hrg g) = true -> labels_used (f_hrg g) = true ->
+    wf_hrg (f_hrg g) = true ->
     Forall (factor_wf (h_labels (f_hrg g)) (f_domains g)) (f_factors g) ->
     exists j g',
       fgg_to_json_model dec g = Ok j /\ json_to_fgg_model c j = Ok g' /\
@@ -162,15 +152,9 @@ Theorem C14_fgg_roundtrip :
 Proof. exact fgg_roundtrip. Qed.
 Print Assumptions C14_fgg_roundtrip.
 
-(** * FGG level: F20 -- json_to_fgg (fgg_to_json g) raises KeyError for a well-formed g *)
-Theorem C14_fgg_roundtrip_refuted :
-  wf_hrg (f_hrg f20_fgg) = true /\
-  forall dec, exists j, fgg_to_json_model dec f20_fgg = Ok j /\ json_to_fgg_model 0 j = Err KeyErr.
-Proof. exact (conj f20_wf f20_refuted). Qed.
-Print Assumptions C14_fgg_roundtrip_refuted.
-
-(** F21 (found by this check): a finite factor whose weights have shape (0, 3) is written as the
-    empty list and read back with shape (0,): ValueError *)
+(** F21 (found by this check, not repaired): a finite factor whose weights have shape (0, 3) is
+    written as the empty list and read back with shape (0,): ValueError.  This is why
+    [C14_fgg_roundtrip] keeps the guard "no empty dimension". *)
 Theorem C14_fgg_roundtrip_empty_domain_refuted :
   forall dec, wf_hrg f21_hrg = true /\
     exists j, fgg_to_json_model dec f21_fgg = Ok j /\ json_to_fgg_model 0 j = Err ValueErr.
